@@ -37,18 +37,21 @@ package redis
 //@ func (*scanRequest).parseCursor
 //@   mode bv
 //@   prop C18
+//@   alsoprop C11 : no-panic
 //@   modifies nothing
 //@   ensures @split result0 == curidx(cursor) && result1 == curlow(cursor)
 
 //@ func (*scanRequest).genCursor
 //@   mode bv
 //@   prop C18
+//@   alsoprop C11 : no-panic
 //@   modifies scanhookidx, scanhookcur
 //@   ghostdef scanhookidx == nodeIdx && scanhookcur == nodeCursor
 //@   ensures @join result == curjoin(nodeIdx, nodeCursor)
 
 //@ func (*upstream).Hosts
 //@   prop C18
+//@   alsoprop C11 : no-panic
 //@   modifies nothing
 //@   ensures @members-non-nil forall k int :: 0 <= k && k < len(result) ==> result[k] != nil
 
@@ -91,24 +94,28 @@ package redis
 
 //@ func newSimpleRequest
 //@   prop C18 C03 C02
+//@   alsoprop C11 : no-panic
 //@   produces result
 //@   modifies nothing
 //@   ensures @fresh result != nil && fresh(result) && result.body == v && result.resp == nil && len(result.hooks) == 0 && cap(result.hooks) == 4 && fresh(result.hooks) && !closed(result.done) && result.done != nil
 
 //@ func newRawRequest
 //@   prop C02 C01
+//@   alsoprop C11 : no-panic
 //@   produces result
 //@   modifies nothing
 //@   ensures @fresh result != nil && fresh(result) && result.body == v && result.resp == nil && len(result.hooks) == 0 && cap(result.hooks) == 4 && fresh(result.hooks) && !closed(result.done) && result.done != nil
 
 //@ func (*simpleRequest).RegisterHook
 //@   prop C18 C02
+//@   alsoprop C11 : no-panic
 //@   requires r != nil
 //@   modifies r.hooks, r.hooks[len(r.hooks):cap(r.hooks)]
 //@   ensures @appended len(r.hooks) == old(len(r.hooks)) + 1
 
 //@ func (*rawRequest).RegisterHook
 //@   prop C02
+//@   alsoprop C11 : no-panic
 //@   requires r != nil
 //@   modifies r.hooks, r.hooks[len(r.hooks):cap(r.hooks)]
 //@   ensures @appended len(r.hooks) == old(len(r.hooks)) + 1
@@ -133,17 +140,20 @@ package redis
 
 //@ func (*simpleRequest).IsReadOnly
 //@   prop C14
+//@   alsoprop C11 : no-panic
 //@   requires r != nil && r.body != nil && len(r.body.Array) > 0
 //@   modifies nothing
 //@   ensures @table-lookup result == isROcmd(lower(str(r.body.Array[0].Text)))
 
 //@ func (*upstream).randomHost
 //@   prop C03
+//@   alsoprop C11 : no-panic
 //@   requires u != nil
 //@   modifies nothing
 
 //@ func (*upstream).chooseHost
 //@   prop C03 C12 C14 C11
+//@   alsoprop C04 : slot-owner-for-writes master-strategy
 //@   alsoprop C04 C07 C02 C01 : no-panic
 //@   requires u != nil && req != nil && req.body != nil && len(req.body.Array) > 0 && u.cfg != nil
 //@   requires @replicas-wellformed forall s int, k int :: 0 <= s && s < 16384 && u.slots[s] != nil && 0 <= k && k < len(u.slots[s].Replicas) ==> u.slots[s].Replicas[k] != nil
@@ -292,7 +302,7 @@ package redis
 // ---- RESP decoder (C10 C11) ---------------------------------------------------------
 
 //@ func (*decoder).decodeInt
-//@   prop C10 C11
+//@   prop C10 C11 C01
 //@   requires decoderOK(d)
 //@   modifies d.br.r, d.br.w, d.br.err, d.br.buf[0:len(d.br.buf)], fetched
 //@   ensures @ri decoderOK(d) && d.br == old(d.br)
@@ -319,7 +329,7 @@ package redis
 //@   ensures @slab-only-shrinks-or-is-new fresh(d.br.slice.buf) || (within(d.br.slice.buf, old(d.br.slice.buf)) && withincap(d.br.slice.buf, old(d.br.slice.buf)))
 
 //@ func (*decoder).decodeArray
-//@   prop C10 C11
+//@   prop C10 C11 C01
 //@   flag bounded-recursion
 //@   decreases 3 * (32 - d.depth)
 //@   requires @nesting-depth-in-range 0 <= d.depth && d.depth <= 32
@@ -333,7 +343,7 @@ package redis
 //@   ensures @slab-only-shrinks-or-is-new fresh(d.br.slice.buf) || (within(d.br.slice.buf, old(d.br.slice.buf)) && withincap(d.br.slice.buf, old(d.br.slice.buf)))
 
 //@ func (*decoder).decodeInline
-//@   prop C10 C11
+//@   prop C10 C11 C01
 //@   requires decoderOK(d)
 //@   modifies d.depth, d.err, d.br.r, d.br.w, d.br.err, d.br.buf[0:len(d.br.buf)], d.br.slice.allocs, d.br.slice.buf, d.br.slice.buf[0:len(d.br.slice.buf)], fetched
 //@   ensures @ri d.br == old(d.br) && decoderOK(d)
@@ -344,7 +354,7 @@ package redis
 //@   ensures @slab-only-shrinks-or-is-new fresh(d.br.slice.buf) || (within(d.br.slice.buf, old(d.br.slice.buf)) && withincap(d.br.slice.buf, old(d.br.slice.buf)))
 
 //@ func (*decoder).decodeResp
-//@   prop C10 C11
+//@   prop C10 C11 C01
 //@   flag bounded-recursion
 //@   decreases 3 * (32 - d.depth) + 1
 //@   requires @nesting-depth-in-range 0 <= d.depth && d.depth <= 32
@@ -357,7 +367,7 @@ package redis
 //@   ensures @slab-only-shrinks-or-is-new fresh(d.br.slice.buf) || (within(d.br.slice.buf, old(d.br.slice.buf)) && withincap(d.br.slice.buf, old(d.br.slice.buf)))
 
 //@ func (*decoder).decode
-//@   prop C10 C11
+//@   prop C10 C11 C01
 //@   flag bounded-recursion
 //@   decreases 3 * (32 - d.depth) + 2
 //@   requires @nesting-depth-in-range 0 <= d.depth && d.depth <= 32
@@ -370,7 +380,7 @@ package redis
 //@   ensures @slab-only-shrinks-or-is-new fresh(d.br.slice.buf) || (within(d.br.slice.buf, old(d.br.slice.buf)) && withincap(d.br.slice.buf, old(d.br.slice.buf)))
 
 //@ func (*decoder).Decode
-//@   prop C10 C11
+//@   prop C10 C11 C01
 //@   requires decoderOK(d)
 //@   requires @nesting-depth-in-range 0 <= d.depth && d.depth <= 32
 //@   ensures @nesting-depth-restored d.depth == old(d.depth)
@@ -398,6 +408,7 @@ package redis
 
 //@ func newSimpleString
 //@   prop C01
+//@   alsoprop C11 : no-panic
 //@   modifies nothing
 //@   ensures @value result != nil && fresh(result) && result.Type == 43 && str(result.Text) == s
 
@@ -408,11 +419,13 @@ package redis
 
 //@ func newBulkBytes
 //@   prop C01
+//@   alsoprop C11 : no-panic
 //@   modifies nothing
 //@   ensures @value result != nil && fresh(result) && result.Type == 36 && result.Text == b
 
 //@ func newInteger
 //@   prop C01
+//@   alsoprop C11 : no-panic
 //@   modifies nothing
 //@   ensures @value result != nil && fresh(result) && result.Type == 58 && result.Int == i
 
@@ -567,6 +580,7 @@ package redis
 
 //@ func (*upstream).handleRedirection
 //@   prop C04 C11 C02 C07
+//@   alsoprop C01 C03 : tokens malformed-redirection-is-not-forwarded
 //@   consumes req
 //@   requires u != nil && req != nil && resp != nil && req.body != nil && len(req.body.Array) >= 1
 //@   requires @only-called-for-moved-or-ask nfields(str(resp.Text), " ") >= 1 ==> lower(field(str(resp.Text), " ", 0)) == "moved" || lower(field(str(resp.Text), " ", 0)) == "ask"
@@ -579,6 +593,7 @@ package redis
 
 //@ func (*upstream).handleClusterDown
 //@   prop C04 C11 C02 C07
+//@   alsoprop C01 C03 : tokens
 //@   consumes req
 //@   requires u != nil && req != nil && resp != nil
 //@   modifies all, trigcount
@@ -752,6 +767,7 @@ package redis
 
 //@ func handlePing
 //@   prop C01 C14 C02
+//@   alsoprop C11 : no-panic
 //@   callpre SetResponse @locally-built-replies-are-one-line oneline(arg1)
 //@   assume oneline(respPong)
 //@   consumes req
@@ -760,6 +776,7 @@ package redis
 
 //@ func handleQuit
 //@   prop C01 C14 C02
+//@   alsoprop C11 : no-panic
 //@   callpre SetResponse @locally-built-replies-are-one-line oneline(arg1)
 //@   assume oneline(respOK)
 //@   consumes req
@@ -768,6 +785,7 @@ package redis
 
 //@ func handleSelect
 //@   prop C01 C14 C02
+//@   alsoprop C11 : no-panic
 //@   callpre SetResponse @locally-built-replies-are-one-line oneline(arg1)
 //@   assume oneline(respOK)
 //@   consumes req
@@ -776,6 +794,7 @@ package redis
 
 //@ func handleInfo
 //@   prop C01 C14 C02
+//@   alsoprop C11 : no-panic
 //@   callpre SetResponse @locally-built-replies-are-one-line oneline(arg1)
 //@   consumes req
 //@   nocall MakeRequest
@@ -783,6 +802,7 @@ package redis
 
 //@ func handleTime
 //@   prop C01 C14 C02
+//@   alsoprop C11 : no-panic
 //@   callpre SetResponse @locally-built-replies-are-one-line oneline(arg1)
 //@   consumes req
 //@   nocall MakeRequest
@@ -790,6 +810,7 @@ package redis
 
 //@ func handleHotKey
 //@   prop C01 C14 C19 C02
+//@   alsoprop C11 : no-panic
 //@   loop 0 assume nonnilkeys(keys)
 //@   callpre SetResponse @locally-built-replies-are-one-line oneline(arg1)
 //@   requires u != nil && u.hkc != nil
@@ -801,6 +822,7 @@ package redis
 
 //@ func (*session).Serve
 //@   prop C09 C01
+//@   alsoprop C11 : no-panic
 //@   requires s != nil && s.done != nil && !closed(s.done)
 //@   requires @session-wired s.p != nil && s.dec != nil && s.processingReqs != nil && decoderOK(s.dec)
 //@   requires @handlers-wellformed forall k string :: has(s.p.cmdHdlrs, k) ==> s.p.cmdHdlrs[k] != nil
@@ -809,6 +831,7 @@ package redis
 
 //@ func (*client).Start
 //@   prop C09 C02 C07
+//@   alsoprop C11 : no-panic
 //@   requires c != nil && c.done != nil && !closed(c.done)
 //@   callpre drainRequests @the-final-drain-runs-after-the-writer-has-finished waitedfor(writeDone)
 //@   modifies all
@@ -816,6 +839,7 @@ package redis
 
 //@ func (*upstream).Serve
 //@   prop C09
+//@   alsoprop C11 : no-panic
 //@   requires u != nil && u.done != nil && !closed(u.done)
 //@   established @before:loadClients newUpstream,(*upstream).updateClients upstream.clients @published clientsok(u)
 //@   modifies all
@@ -825,6 +849,7 @@ package redis
 
 //@ func (*upstream).MakeRequest
 //@   prop C02 C03 C01
+//@   alsoprop C11 : no-panic
 //@   callpre chooseHost @the-host-is-chosen-for-the-routing-key-of-this-request arg0 == u && sameslice(arg1, routingKey) && arg2 == req
 //@   callpre MakeRequestToHost @the-request-goes-to-the-chosen-host arg0 == u && arg2 == req
 //@   alsoprop C12 C14 C04 : the-host-is-chosen-for-the-routing-key-of-this-request the-request-goes-to-the-chosen-host
@@ -835,6 +860,7 @@ package redis
 
 //@ func (*upstream).MakeRequestToHost
 //@   prop C02 C04 C20 C01
+//@   alsoprop C11 : no-panic
 //@   callpre SetResponse @locally-built-replies-are-one-line oneline(arg1)
 //@   consumes req
 //@   requires req != nil && req.body != nil && len(req.body.Array) >= 1
@@ -846,6 +872,8 @@ package redis
 
 //@ func (*upstream).getClient
 //@   prop C07 C02
+//@   alsoprop C04 : no-finished-connect-attempt-stays-cached client-or-error
+//@   alsoprop C11 : no-panic
 //@   established newUpstream,(*upstream).updateClients upstream.clients @published clientsok(u)
 //@   established @before:createClient newUpstream,(*upstream).updateClients upstream.clients @published clientsok(u)
 //@   requires @pending-calls-wellformed forall k string :: smhas[u.createClientCalls][k] ==> typeis(smval[u.createClientCalls][k], "*createClientCall") && ifaceptr(smval[u.createClientCalls][k], "*createClientCall") != nil && ifaceptr(smval[u.createClientCalls][k], "*createClientCall").done != nil
@@ -859,12 +887,14 @@ package redis
 
 //@ func (*client).Send
 //@   prop C02 C01
+//@   alsoprop C11 : no-panic
 //@   callpre SetResponse @locally-built-replies-are-one-line oneline(arg1)
 //@   consumes req
 //@   requires req != nil && req.body != nil && len(req.body.Array) >= 1
 
 //@ func (*client).loopWrite
 //@   prop C02 C01
+//@   alsoprop C11 : no-panic
 //@   callpre SetResponse @locally-built-replies-are-one-line oneline(arg1)
 //@   flag tokens
 //@   requires c != nil
@@ -872,28 +902,33 @@ package redis
 
 //@ func (*client).loopRead
 //@   prop C02 C01
+//@   alsoprop C11 : no-panic
 //@   flag tokens
 //@   requires c != nil
 //@   loop 0 assume decoderOK(c.dec) && c.dec.depth == 0
 
 //@ func (*client).drainRequests
 //@   prop C02 C01
+//@   alsoprop C11 : no-panic
 //@   callpre SetResponse @locally-built-replies-are-one-line oneline(arg1)
 //@   flag tokens
 //@   requires c != nil
 
 //@ func handleSimpleCommand$1
 //@   prop C02 C01
+//@   alsoprop C11 : no-panic
 //@   requires @hooks-run-once-the-reply-is-set simpleReq != nil && simpleReq.resp != nil
 //@   consumes deref(req)
 
 //@ func handleEval$1
 //@   prop C02 C01
+//@   alsoprop C11 : no-panic
 //@   requires @hooks-run-once-the-reply-is-set simpleReq != nil && simpleReq.resp != nil
 //@   consumes deref(req)
 
 //@ func (*encoder).Encode
 //@   prop C10 C01 C02
+//@   alsoprop C11 : no-panic
 //@   requires v != nil
 //@   modifies e.err, encn, enclast, wrote, wlen
 //@   ensures @a-simple-string-or-error-goes-out-as-one-frame result == nil && (v.Type == 43 || v.Type == 45) ==> wlen[e.bw] == old(wlen[e.bw]) + 1 + len(v.Text) + 2 && wrote[e.bw][old(wlen[e.bw])] == v.Type && wrote[e.bw][old(wlen[e.bw]) + 1 + len(v.Text)] == 13 && wrote[e.bw][old(wlen[e.bw]) + 2 + len(v.Text)] == 10 && forall k int :: 0 <= k && k < len(v.Text) ==> wrote[e.bw][old(wlen[e.bw]) + 1 + k] == v.Text[k]
@@ -903,18 +938,21 @@ package redis
 
 //@ func (*encoder).Flush
 //@   prop C10 C01 C02
+//@   alsoprop C11 : no-panic
 //@   modifies e.err
 
 // ---- C19: the proxy sizes its hot key collector with a positive capacity ------------------------------
 
 //@ func newUpstream
 //@   prop C19 C07
+//@   alsoprop C11 : no-panic
 //@   ensures @published clientsok(result)
 //@   requires @hosts-present-one-per-address (forall k int :: 0 <= k && k < len(hosts) ==> hosts[k] != nil) && forall a int, b int :: 0 <= a && a < b && b < len(hosts) ==> hosts[a].Addr != hosts[b].Addr
 //@   callpre NewCollector @hot-key-capacity-at-least-one arg0 >= 1
 
 //@ func (*upstream).HotKeys
 //@   prop C19
+//@   alsoprop C11 : no-panic
 //@   requires u != nil && u.hkc != nil
 //@   modifies nothing
 //@   ensures @the-collectors-report sameslice(result, u.hkc.keys)
@@ -923,6 +961,7 @@ package redis
 
 //@ func (*rawRequest).Wait
 //@   prop C01
+//@   alsoprop C11 : no-panic
 //@   requires r != nil
 //@   modifies all
 //@   ensures @completed-with-a-reply r.resp != nil
@@ -930,6 +969,7 @@ package redis
 
 //@ func (*session).loopRead
 //@   prop C01
+//@   alsoprop C11 : no-panic
 //@   requires s != nil && s.p != nil && s.dec != nil && s.processingReqs != nil && decoderOK(s.dec)
 //@   requires @handlers-wellformed forall k string :: has(s.p.cmdHdlrs, k) ==> s.p.cmdHdlrs[k] != nil
 //@   loop 0 assume decoderOK(s.dec) && s.dec.depth == 0
@@ -940,6 +980,7 @@ package redis
 
 //@ func (*session).loopWrite
 //@   prop C01
+//@   alsoprop C11 : no-panic
 //@   requires s != nil && s.enc != nil && s.processingReqs != nil
 //@   callpre Encode @the-reply-of-the-next-queued-request arg0 == s.enc && arg1 == req.resp && req == sentat(s.processingReqs, recvcount(s.processingReqs) - 1) && encn[s.enc] - old(encn[s.enc]) == recvcount(s.processingReqs) - old(recvcount(s.processingReqs)) - 1
 //@   loop 0 invariant encn[s.enc] - old(encn[s.enc]) == recvcount(s.processingReqs) - old(recvcount(s.processingReqs))
@@ -949,6 +990,7 @@ package redis
 
 //@ func (*redisProc).handleRequest$1
 //@   prop C20
+//@   alsoprop C11 : no-panic
 //@   requires req != nil && req.resp != nil && deref(p) != nil && deref(p).stats != nil
 //@   requires @distinct-counters deref(p).stats.Downstream.RqFailureTotal != deref(p).stats.Downstream.RqSuccessTotal && deref(p).stats.Downstream.RqTotal != deref(p).stats.Downstream.RqSuccessTotal && deref(p).stats.Downstream.RqTotal != deref(p).stats.Downstream.RqFailureTotal
 //@   modifies statval
@@ -956,6 +998,7 @@ package redis
 
 //@ func (*rawRequest).Duration
 //@   prop C20
+//@   alsoprop C11 : no-panic
 //@   requires r != nil
 //@   modifies nothing
 
@@ -964,12 +1007,14 @@ package redis
 
 //@ func (*upstream).triggerSlotsRefresh
 //@   prop C07
+//@   alsoprop C11 : no-panic
 //@   requires u != nil
 //@   modifies all, trigcount
 //@   ghostdef trigcount == old(trigcount) + 1
 
 //@ func (*upstream).refreshSlots
 //@   prop C07
+//@   alsoprop C11 : no-panic
 //@   requires u != nil
 //@   modifies all, trigcount, refreshn
 //@   ghostdef refreshn == old(refreshn) + 1
@@ -978,12 +1023,14 @@ package redis
 
 //@ func (*upstream).loadClients
 //@   prop C07
+//@   alsoprop C11 : no-panic
 //@   requires clientsok(u)
 //@   modifies nothing
 //@   ensures @the-current-table result == clientsof(u)
 
 //@ func (*upstream).cloneClients
 //@   prop C07
+//@   alsoprop C11 : no-panic
 //@   requires clientsok(u)
 //@   modifies nothing
 //@   ensures @a-private-copy result != nil && fresh(result) && forall k string :: has(result, k) == has(clientsof(u), k) && (has(result, k) ==> result[k] == clientsof(u)[k])
@@ -992,12 +1039,14 @@ package redis
 
 //@ func (*upstream).updateClients
 //@   prop C07
+//@   alsoprop C11 : no-panic
 //@   requires u != nil && clients != nil && forall k string :: has(clients, k) ==> clients[k] != nil
 //@   modifies aval
 //@   ensures @published clientsok(u) && clientsof(u) == clients
 
 //@ func (*upstream).removeClientLocked
 //@   prop C07
+//@   alsoprop C11 : no-panic
 //@   requires clientsok(u)
 //@   modifies aval
 //@   ensures @the-address-has-no-client-any-more clientsok(u) && !has(clientsof(u), addr)
@@ -1005,6 +1054,7 @@ package redis
 
 //@ func (*upstream).removeClient
 //@   prop C07
+//@   alsoprop C11 : no-panic
 //@   requires clientsok(u)
 //@   modifies aval
 //@   ensures @the-address-has-no-client-any-more clientsok(u) && !has(clientsof(u), addr)
@@ -1012,6 +1062,7 @@ package redis
 
 //@ func (*upstream).addClientLocked
 //@   prop C07
+//@   alsoprop C11 : no-panic
 //@   requires clientsok(u) && c != nil
 //@   modifies aval
 //@   ensures @registered clientsok(u) && has(clientsof(u), addr) && clientsof(u)[addr] == c
@@ -1019,6 +1070,7 @@ package redis
 
 //@ func (*upstream).createClient$1
 //@   prop C07
+//@   alsoprop C11 : no-panic
 //@   requires deref(c) != nil && deref(c).done != nil
 //@   assume !closed(deref(c).done)
 //@   modifies all
@@ -1027,11 +1079,13 @@ package redis
 
 //@ func newClient
 //@   prop C07 C09
+//@   alsoprop C11 : no-panic
 //@   modifies all
 //@   ensures @a-new-client-has-its-done-channel result1 == nil ==> result0 != nil && result0.done != nil
 
 //@ func (*upstream).createClient
 //@   prop C07 C09
+//@   alsoprop C11 : no-panic
 //@   flag track-locks
 //@   callpre Dial @the-connection-is-made-while-the-client-table-is-locked held(u.clientsMu)
 //@   callpre addClientLocked @the-client-is-registered-while-the-table-is-still-locked held(u.clientsMu)
@@ -1044,12 +1098,14 @@ package redis
 
 //@ func newStringArray
 //@   prop C07 C01
+//@   alsoprop C11 : no-panic
 //@   modifies nothing
 //@   ensures @one-bulk-string-per-argument result != nil && fresh(result) && result.Type == 42 && len(result.Array) == len(str) && forall k int :: 0 <= k && k < len(str) ==> result.Array[k].Type == 36 && str(result.Array[k].Text) == str[k]
 //@   loop 0 invariant len(arr) == len(str) && fresh(arr) && forall k int :: 0 <= k && k <= rangeindex ==> arr[k].Type == 36 && str(arr[k].Text) == str[k]
 
 //@ func (*upstream).resetAllClients
 //@   prop C07
+//@   alsoprop C11 : no-panic
 //@   requires clientsok(u)
 //@   modifies all
 //@   established @ret newUpstream,(*upstream).updateClients upstream.clients @published clientsok(u)
@@ -1057,6 +1113,7 @@ package redis
 
 //@ func (*upstream).loopRefreshSlots
 //@   prop C07
+//@   alsoprop C11 : no-panic
 //@   requires u != nil
 //@   modifies all, trigcount, refreshn, received(u.slotsRefreshCh), sent(u.slotsRefreshCh)
 //@   loop 0 invariant @no-trigger-is-taken-without-a-refresh-following-it recvcount(u.slotsRefreshCh) - old(recvcount(u.slotsRefreshCh)) <= refreshn - old(refreshn)
@@ -1067,6 +1124,7 @@ package redis
 
 //@ func (*upstream).OnHostAdd
 //@   prop C07
+//@   alsoprop C11 : no-panic
 //@   requires u != nil && setok(u.hosts) && cachefresh(u.hosts) && forall k int :: 0 <= k && k < len(hosts) ==> hosts[k] != nil
 //@   requires @one-host-per-address-in-a-call forall a int, b int :: 0 <= a && a < b && b < len(hosts) ==> hosts[a].Addr != hosts[b].Addr
 //@   modifies all, trigcount
@@ -1075,6 +1133,7 @@ package redis
 
 //@ func (*upstream).OnHostRemove
 //@   prop C07
+//@   alsoprop C11 : no-panic
 //@   requires u != nil && setok(u.hosts) && cachefresh(u.hosts) && forall k int :: 0 <= k && k < len(hosts) ==> hosts[k] != nil
 //@   established @before:loadClients newUpstream,(*upstream).updateClients upstream.clients @published clientsok(u)
 //@   modifies all, trigcount
@@ -1085,6 +1144,7 @@ package redis
 
 //@ func (*upstream).OnHostReplace
 //@   prop C07
+//@   alsoprop C11 : no-panic
 //@   requires u != nil && setok(u.hosts) && cachefresh(u.hosts) && forall k int :: 0 <= k && k < len(hosts) ==> hosts[k] != nil
 //@   requires @one-host-per-address-in-a-call forall a int, b int :: 0 <= a && a < b && b < len(hosts) ==> hosts[a].Addr != hosts[b].Addr
 //@   established @before:resetAllClients newUpstream,(*upstream).updateClients upstream.clients @published clientsok(u)
@@ -1095,7 +1155,8 @@ package redis
 // ---- C02: a split request is answered by the child that brings the count to zero, and by no other ----------
 
 //@ func (*msetRequest).onChildDone
-//@   prop C02 C03
+//@   prop C02 C03 C01
+//@   alsoprop C11 : no-panic
 //@   requires r != nil && r.raw != nil && r.childWait != nil
 //@   modifies all, atomdecs
 //@   callpre SetResponse @answered-only-by-the-child-that-brings-the-count-to-zero arg0 == r.raw && atomi32[r.childWait] == 0 && arg1 != nil
@@ -1104,7 +1165,8 @@ package redis
 //@   ensures @every-finished-child-is-counted-exactly-once atomdecs[r.childWait] == old(atomdecs[r.childWait]) + 1
 
 //@ func (*mgetRequest).onChildDone
-//@   prop C02 C03
+//@   prop C02 C03 C01
+//@   alsoprop C11 : no-panic
 //@   requires r != nil && r.raw != nil && r.childWait != nil
 //@   modifies all, atomdecs
 //@   callpre setResponse @answered-only-by-the-child-that-brings-the-count-to-zero atomi32[r.childWait] == 0
@@ -1112,7 +1174,8 @@ package redis
 //@   ensures @every-finished-child-is-counted-exactly-once atomdecs[r.childWait] == old(atomdecs[r.childWait]) + 1
 
 //@ func (*sumResultRequest).onChildDone
-//@   prop C02 C03
+//@   prop C02 C03 C01
+//@   alsoprop C11 : no-panic
 //@   requires r != nil && r.raw != nil && r.childWait != nil
 //@   modifies all, atomdecs
 //@   callpre setResponse @answered-only-by-the-child-that-brings-the-count-to-zero atomi32[r.childWait] == 0
@@ -1138,22 +1201,26 @@ package redis
 
 //@ func newEncoder
 //@   prop C10 C01
+//@   alsoprop C11 : no-panic
 //@   modifies nothing
 //@   ensures @a-new-encoder-has-no-error result != nil && fresh(result) && result.err == nil && result.bw != nil
 
 //@ func newSession
 //@   prop C09 C01
+//@   alsoprop C11 : no-panic
 //@   requires !typeis(conn, "*Reader")
 //@   modifies nothing
 //@   ensures @a-new-session-is-wired-and-not-finished result != nil && fresh(result) && result.p == p && result.conn == conn && result.dec != nil && decoderOK(result.dec) && result.enc != nil && result.processingReqs != nil && result.quit != nil && !closed(result.quit) && result.done != nil && !closed(result.done)
 
 //@ func (*session).doQuit
 //@   prop C09
+//@   alsoprop C11 : no-panic
 //@   requires s != nil
 //@   modifies all
 
 //@ func (*redisProc).handleConn
 //@   prop C09 C01
+//@   alsoprop C11 : no-panic
 //@   requires p != nil
 //@   requires @handlers-wellformed forall k string :: has(p.cmdHdlrs, k) ==> p.cmdHdlrs[k] != nil
 //@   assume !typeis(conn, "*Reader")
@@ -1163,6 +1230,7 @@ package redis
 
 //@ func (*redisProc).OnSvcHostAdd
 //@   prop C08 C07
+//@   alsoprop C11 : no-panic
 //@   requires p != nil && p.u != nil && setok(p.u.hosts) && cachefresh(p.u.hosts) && forall k int :: 0 <= k && k < len(hosts) ==> hosts[k] != nil
 //@   requires @one-host-per-address-in-a-call forall a int, b int :: 0 <= a && a < b && b < len(hosts) ==> hosts[a].Addr != hosts[b].Addr
 //@   modifies all, trigcount
@@ -1170,12 +1238,14 @@ package redis
 
 //@ func (*redisProc).OnSvcHostRemove
 //@   prop C08 C07
+//@   alsoprop C11 : no-panic
 //@   requires p != nil && p.u != nil && setok(p.u.hosts) && cachefresh(p.u.hosts) && forall k int :: 0 <= k && k < len(hosts) ==> hosts[k] != nil
 //@   modifies all, trigcount
 //@   callpre OnHostRemove @the-removed-hosts-go-to-the-upstream-unchanged arg0 == p.u && sameslice(arg1, hosts)
 
 //@ func (*redisProc).OnSvcAllHostReplace
 //@   prop C08 C07
+//@   alsoprop C11 : no-panic
 //@   requires p != nil && p.u != nil && setok(p.u.hosts) && cachefresh(p.u.hosts) && forall k int :: 0 <= k && k < len(hosts) ==> hosts[k] != nil
 //@   requires @one-host-per-address-in-a-call forall a int, b int :: 0 <= a && a < b && b < len(hosts) ==> hosts[a].Addr != hosts[b].Addr
 //@   modifies all, trigcount
@@ -1183,11 +1253,13 @@ package redis
 
 //@ func (*redisProc).StopListen
 //@   prop C09
+//@   alsoprop C11 : no-panic
 //@   requires p != nil
 //@   callpre Drain @the-listener-of-this-processor-is-drained arg0 == p.l
 
 //@ func (*redisProc).Stop
 //@   prop C09
+//@   alsoprop C11 : no-panic
 //@   requires p != nil && p.u != nil
 //@   modifies all
 //@   callpre upstream).Stop @the-upstream-of-this-processor-is-stopped arg0 == p.u
@@ -1196,6 +1268,7 @@ package redis
 
 //@ func (*upstream).Stop
 //@   prop C09
+//@   alsoprop C11 : no-panic
 //@   requires u != nil && u.quit != nil && !closed(u.quit) && u.done != nil
 //@   modifies all
 //@   proves @returns-only-after-the-serve-loop-has-finished waitedfor(u.done)
@@ -1204,6 +1277,7 @@ package redis
 
 //@ func newBuffer
 //@   prop C13
+//@   alsoprop C11 : no-panic
 //@   modifies buflen
 //@   assume @after:Get typeis(lastresult, "*bytes.Buffer") && ifaceptr(lastresult, "*bytes.Buffer") != nil
 //@   ensures @a-pooled-buffer-starts-empty result.Buffer != nil && result.pool != nil && buflen[result.Buffer] == 0
@@ -1211,6 +1285,7 @@ package redis
 
 //@ func (*buffer).Close
 //@   prop C13
+//@   alsoprop C11 : no-panic
 //@   requires b != nil && b.Buffer != nil && b.pool != nil
 //@   modifies buflen, b.Buffer
 //@   callpre Put @the-buffer-goes-back-empty buflen[b.Buffer] == 0 && arg0 == b.pool
@@ -1220,11 +1295,13 @@ package redis
 
 //@ func (*builder).Build
 //@   prop C08
+//@   alsoprop C11 : no-panic
 //@   modifies all
 //@   callpre newRedisProc @built-from-the-parameters-as-given arg0 == params.Name && arg1 == params.Cfg && sameslice(arg2, params.Hosts)
 
 //@ func (*redisProc).Name
 //@   prop C08
+//@   alsoprop C11 : no-panic
 //@   requires p != nil
 //@   modifies nothing
 //@   ensures @the-name-it-was-built-with result == p.name
@@ -1233,29 +1310,34 @@ package redis
 
 //@ func newConfig
 //@   prop C08 C13
+//@   alsoprop C11 : no-panic
 //@   modifies nothing
 //@   ensures @wraps-the-given-configuration result != nil && fresh(result) && result.Config == c
 
 //@ func (*config).Update
 //@   prop C08 C13
+//@   alsoprop C11 : no-panic
 //@   requires c != nil
 //@   modifies c.Config
 //@   ensures @the-new-configuration-is-in-force c.Config == cfg
 
 //@ func (*config).Raw
 //@   prop C08
+//@   alsoprop C11 : no-panic
 //@   requires c != nil
 //@   modifies nothing
 //@   ensures @the-configuration-in-force result == c.Config
 
 //@ func (*redisProc).OnSvcConfigUpdate
 //@   prop C08 C13
+//@   alsoprop C11 : no-panic
 //@   requires p != nil && p.cfg != nil
 //@   modifies all
 //@   callpre Update @the-pushed-configuration-is-the-one-applied arg0 == p.cfg && arg1 == newCfg
 
 //@ func (*redisProc).Config
 //@   prop C08
+//@   alsoprop C11 : no-panic
 //@   requires p != nil && p.cfg != nil
 //@   modifies nothing
 //@   ensures @the-configuration-in-force result == p.cfg.Config
@@ -1264,16 +1346,19 @@ package redis
 
 //@ func newSimpleBytes
 //@   prop C10 C01
+//@   alsoprop C11 : no-panic
 //@   modifies nothing
 //@   ensures @value result != nil && fresh(result) && result.Type == 43 && result.Text == b
 
 //@ func newNullBulkString
 //@   prop C10
+//@   alsoprop C11 : no-panic
 //@   modifies nothing
 //@   ensures @value result != nil && fresh(result) && result.Type == 36 && isnil(result.Text)
 
 //@ func newByteArray
 //@   prop C10
+//@   alsoprop C11 : no-panic
 //@   modifies nothing
 //@   ensures @one-bulk-string-per-argument result != nil && fresh(result) && result.Type == 42 && len(result.Array) == len(b) && forall k int :: 0 <= k && k < len(b) ==> result.Array[k].Type == 36 && result.Array[k].Text == b[k]
 //@   loop 0 invariant len(arr) == len(b) && fresh(arr) && forall k int :: 0 <= k && k <= rangeindex ==> arr[k].Type == 36 && arr[k].Text == b[k]
@@ -1282,11 +1367,13 @@ package redis
 
 //@ func newHotKeyFilter
 //@   prop C19
+//@   alsoprop C11 : no-panic
 //@   modifies nothing
 //@   ensures @counts-into-the-given-counter result != nil && fresh(result) && result.counter == counter
 
 //@ func (*hotKeyFilter).Destroy
 //@   prop C19
+//@   alsoprop C11 : no-panic
 //@   requires f != nil
 //@   modifies all
 //@   callpre Free @the-counter-of-this-filter-is-released arg0 == f.counter && f.counter != nil
@@ -1297,6 +1384,7 @@ package redis
 
 //@ func (*simpleRequest).SetResponse
 //@   prop C02 C01
+//@   alsoprop C11 : no-panic
 //@   consumes r
 //@   requires @a-reply-is-given resp != nil
 //@   modifies all
@@ -1309,6 +1397,7 @@ package redis
 
 //@ func (*rawRequest).SetResponse
 //@   prop C02 C01
+//@   alsoprop C11 : no-panic
 //@   consumes r
 //@   requires @a-reply-is-given v != nil
 //@   modifies all
